@@ -30,8 +30,10 @@ CHECKS = {
              'expectation answer and measure-after-peek of the real simulator (3 widths, index straddling 64/128/256, all gates, '
              'feedback, MPP/SPP, REPEAT, `!`) must be a solution of the specification\'s symbolic sign forms, decided by the verified '
              'GF(2) solver (sound+complete); free measurements must take both values. Reference samples through the loop-folding path (ReferenceSampleTree, REPEAT >= 10 with the record replayed for skipped iterations, feedback looking back across the loop, pre-loop results that differ from the periodic content) must solve the forms of the unrolled circuit. TableauSimulator measurement / reset routines, collapse wrappers and pair-measurement segments are regenerated from source (GenProofs_TabMeas); the hand model coq/Mpp.v of gate_decomposition.cc (MPP, SPP, pair segments, reversed segments) is extracted and run against the real functions on the same instructions, and MppProofs proves that every flushed block measures each of its (pairwise disjoint) products with the right sign, for products of any size.',
-        note=TB + ' The assembly of the per-step lemmas into one theorem over whole circuits (tabsim_refines_spec) is not finished: '
-                  'whole-circuit behaviour is tied by the oracle correspondence. The stabilizer measurement rule for n>2 qubits is '
+        note=TB + ' Whole runs are proved to refine the predicate-level semantics at the level of maps on Paulis (Run.run_refines: any sequence '
+                  'of Clifford maps and Hermitian measurements, any coins); that each table gate lifts to such a map on XZ-form strings '
+                  'and that the C++ collapse_qubit_z is the modelled collapse Clifford are tied by the generated per-gate obligations and '
+                  'the oracle correspondence, not by one theorem about the C++ text. The stabilizer measurement rule for n>2 qubits is '
                   'the standard update rule (DESIGN section 6).',
         design='§4 C01'),
     'C02': dict(
